@@ -263,6 +263,17 @@ func c03Judge(res *engine.Result, l *lockstep, sbase uint8, watch []uint16, doc 
 		idx[a] = j
 	}
 	key := l.opKey()
+	// ---- writes as seen on the bus (hook H4): every documented write performed, in its documented cycle
+	for _, mm := range mism {
+		switch mm.kind {
+		case "buswrite-cycle":
+			res.Fail(fmt.Sprintf("C03/write-cycle/%s", key), l.m.N, "%s", mm.detail)
+			return
+		case "buswrite-missing":
+			res.Fail(fmt.Sprintf("C03/write-missing/%s", key), l.m.N, "%s", mm.detail)
+			return
+		}
+	}
 	// ---- writes: after which cycle did the location stop holding the stamp?
 	for _, a := range doc {
 		if !a.Write {
